@@ -22,8 +22,10 @@ INDEX = [B + "state_index", B + "parameter_index", B + "monitor_index", B + "mis
 SCHEMES = [S + "explicit_euler", S + "generalized_rush_larsen", S + "hybrid_rush_larsen"]
 EXPR = [X + "relational_to_piecewise", X + "binary_op", X + "unary_op", X + "build_expression.expr2symbols",
         T + "Conditional", T + "ContinuousConditional"]
-PY_PRINT = [PP + n for n in ("_print_And", "_print_Or", "_print_Not", "_print_sign", "_print_Equality", "_print_Piecewise", "_print_Float", "_print_Mod")]
-ODE_PRINT = [OP + n for n in ("_print_Relational", "_print_And", "_print_Or", "_print_Exp1", "_print_Piecewise")]
+PY_PRINT = [PP + n for n in ("_print_And", "_print_Or", "_print_Not", "_print_sign", "_print_Equality", "_print_Piecewise", "_print_Float", "_print_Mod")] \
+    + ["frame:gotranx.codegen.python.GotranPythonCodePrinter"]
+ODE_PRINT = [OP + n for n in ("_print_Relational", "_print_And", "_print_Or", "_print_Exp1", "_print_Piecewise")] \
+    + ["frame:gotranx.codegen.ode.BaseGotranODECodePrinter"]
 PY_TMPL = [TP + n for n in ("state_index", "parameter_index", "monitor_index", "missing_index", "init_state_values",
                             "init_parameter_values", "method")]
 C_TMPL = [TC + n for n in ("state_index", "parameter_index", "monitor_index", "missing_index", "method")]
@@ -33,10 +35,12 @@ PROPS = {
     "C01": dict(functions=EXPR + [B + "rhs"] + SORTED + UNPACK + PY_PRINT + [TP + "method"], lemmas=L.L1 + L.L2 + L.STAB),
     "C02": dict(functions=[CG + "_rhs_arguments", CG + "_scheme_arguments", G + "gotran2c.get_code", B + "rhs", B + "monitor_values",
                            PP + "_print_Float", "gotranx.codegen.c.GotranCCodePrinter._print_Piecewise",
-                           "gotranx.codegen.c.GotranCCodePrinter._print_Float", "gotranx.codegen.c.bool_to_int"] + C_TMPL, lemmas=[]),
+                           "gotranx.codegen.c.GotranCCodePrinter._print_Float", "gotranx.codegen.c.bool_to_int",
+                           "frame:gotranx.codegen.c.GotranCCodePrinter"] + C_TMPL, lemmas=[]),
     "C03": dict(functions=[B + "monitor_values", B + "missing_values", B + "rhs", B + "scheme", TJ + "method",
                            PP + "_print_And", PP + "_print_Or", PP + "_print_Not", PP + "_print_sign",
-                           "gotranx.codegen.jax.JaxPrinter._print_Assignment"], lemmas=L.C13L),
+                           "gotranx.codegen.jax.JaxPrinter._print_Assignment", "frame:gotranx.codegen.jax.JaxPrinter",
+                           "frame:gotranx.codegen.python.GotranPythonCodePrinter"], lemmas=L.C13L),
     "C04": dict(functions=INDEX + [B + "rhs", B + "monitor_values", B + "scheme"] + SCHEMES + SORTED + ACCESSORS + UNPACK + ARGS
                 + PY_TMPL + C_TMPL + [TJ + "method", T + "states_matrix"], lemmas=L.L1 + L.STAB),
     "C05": dict(functions=[S + "explicit_euler", S + "get_scheme", B + "scheme", U + "add_schemes"] + UNPACK + SORTED, lemmas=L.L1),
